@@ -67,6 +67,9 @@ SYN_STMTS = [
     # arm and closure bodies that are blocks which must stay blocks: labelled, unsafe, const, async, with an attribute or a statement
     "match found { Some(v) => 'found: { if v > limit { break 'found limit } else { v } } None => 'none: { fallback() } }",
     "match kind { A => unsafe { call_it() }, C => async { wait().await }, D => { #[allow(unused)] value } E => { side_effect(); } F => { value } }",
+    # generic arguments of every kind on a METHOD call in a chain (const literal, negative, braced, lifetime, inferred)
+    "let c = it.array_chunks::<4>().map_windows::<_, _, 2>(f).cast::<'static, u8>().convert::<{ N + 1 }>().neg::<-1>().plain::<u8>();",
+    "let d = receiver.first::<'a>().second::<true>().third::<{ usize::MAX }, Vec<u8>>(argument).fourth::<\"s\">();",
     # redundant nested parentheses (removed by default): the operand is laid out once per pass
     "let ok = ((first_operand_of_the_condition && second_operand_of_the_condition));", "if ((((first_long_condition_name || another_long_condition_name)))) { body(); }",
     "let v = (((compute_the_first_part(argument) + compute_the_second_part(argument)))) * ((scale_factor));",
